@@ -21,6 +21,11 @@ func Do(
 	n int,
 	f func(i int),
 ) {
+	if n <= 0 {
+		// [0, n) is empty. (Clamping parallelism to a negative n would make wg.Add panic.)
+		return
+	}
+
 	if parallelism <= 0 {
 		parallelism = runtime.GOMAXPROCS(-1)
 	}
@@ -36,14 +41,15 @@ func Do(
 		return
 	}
 
-	x := int32(-1)
+	// 64 bits: every worker increments once more when it finds the indices used up, which must not wrap around.
+	x := int64(-1)
 	var wg sync.WaitGroup
 	wg.Add(parallelism)
 	for j := 0; j < parallelism; j++ {
 		go func() {
 			defer wg.Done()
 			for {
-				i := int(atomic.AddInt32(&x, 1))
+				i := int(atomic.AddInt64(&x, 1))
 				if i >= n {
 					return
 				}
@@ -86,12 +92,13 @@ func DoContext(
 		return nil
 	}
 
-	x := int32(-1)
+	// 64 bits: every worker increments once more when it finds the indices used up, which must not wrap around.
+	x := int64(-1)
 	eg, ctx := errgroup.WithContext(ctx)
 	for j := 0; j < parallelism; j++ {
 		eg.Go(func() error {
 			for {
-				i := int(atomic.AddInt32(&x, 1))
+				i := int(atomic.AddInt64(&x, 1))
 				if i >= n {
 					return nil
 				}
